@@ -43,6 +43,7 @@ var (
 	ErrContextDone               = errors.New("context done")
 	ErrTimeoutDocSync            = errors.New("timeout while syncing doc")
 	ErrReplicatorCollections     = errors.New(errReplicatorCollections)
+	ErrPushLogCIDMismatch        = errors.New("the CID of the pushlog does not match its block")
 )
 
 func NewErrPushLog(inner error, kv ...errors.KV) error {
